@@ -635,8 +635,11 @@ class _SetOperation(Selectable, Term):  # type:ignore[misc]
         if self._orderbys:
             querystring += self._orderby_sql(ctx)
 
-        querystring += self._limit_sql(ctx)
-        querystring += self._offset_sql(ctx)
+        # the row limiting clause follows the dialect of the base query's builder
+        # (LIMIT/OFFSET, OFFSET ... ROWS FETCH NEXT ... ROWS ONLY, ...)
+        pager = copy(self.base_query)
+        pager._limit, pager._offset, pager._orderbys = self._limit, self._offset, self._orderbys
+        querystring = pager._apply_pagination(querystring, ctx)
 
         if ctx.subquery:
             querystring = "({query})".format(query=querystring)
